@@ -160,6 +160,38 @@ def ob_comm(a: int, b: int, c: int, d: int) -> bool:
     return loop(8, E.communities(pairs))
 
 
+NAMES = ['PLANNED_SHUT', 'ACCEPT_OWN', 'ROUTE_FILTER_TRANSLATED_v4', 'ROUTE_FILTER_v4', 'ROUTE_FILTER_TRANSLATED_v6',
+         'ROUTE_FILTER_v6', 'BLACKHOLE', 'NO_EXPORT', 'NO_ADVERTISE', 'NO_EXPORT_SUBCONFED', 'NOPEER']
+
+
+def ob_comm_name(a: int, b: int) -> bool:
+    """starting from the *name* (IANA registry, not from what the decoder happened to render): posting it is accepted, the
+    octets are the registered value, and decoding them renders the same name again"""
+    from yabgp.message.update import Update
+    name = P['name']
+    value = WELL_KNOWN_COMMUNITIES[name.upper()]
+    assume(0 <= a < 65535 and 0 <= b < 65536)
+    w, rec = world()
+    attr = dict(BASE)
+    attr['8'] = [name, '%s:%s' % (a, b)]
+    r = rest.call('v1.json_to_bin', '/v1/peer/10.0.0.2/json_to_bin', 'POST', creds=('admin', 'admin'),
+                  view_args={'peer_ip': '10.0.0.2'}, body={'attr': attr, 'nlri': ['10.0.0.0/8']})
+    if r.status != 200 or 'raw' not in rec:
+        return False
+    cover('accepted')
+    raw = rec['raw']
+    body = raw[19:]
+    al = body[2] * 256 + body[3]
+    attrs = split_attrs(body[4:4 + al])
+    if attrs is None or 8 not in attrs:
+        return False
+    if tlv_value(attrs[8]) != tlv_value(E.communities([(value // 65536, value % 65536), (a, b)])):
+        return False
+    out = Update.parse(None, body, True, {})
+    cover('decoded')
+    return out['sub_error'] is None and same(out['attr'][8], [name, '%s:%s' % (a, b)])
+
+
 def ob_largecomm(a: int, b: int, c: int) -> bool:
     assume(0 <= a < 2 ** 32 and 0 <= b < 2 ** 32 and 0 <= c < 2 ** 32)
     triples = [(a, b, c)] + [tuple(t) for t in P.get('more', [])]
@@ -192,6 +224,8 @@ def obligations(tier, seed):
     out.append(ob('C17/community/n=2', 'ob_comm', {'n': 2}, covers=['decoded', 'accepted'], cap=250))
     for name, v in sorted(WELL_KNOWN_COMMUNITIES.items()):
         out.append(ob('C17/community/well-known=%s' % name, 'ob_comm', {'n': 1, 'fixed': [v]}, covers=['decoded', 'accepted']))
+    for nm in NAMES:
+        out.append(ob('C17/community/from-name=%s' % nm, 'ob_comm_name', {'name': nm}, covers=['decoded', 'accepted']))
     out.append(ob('C17/largecomm/n=1', 'ob_largecomm', {}, covers=['decoded', 'accepted'], cap=250))
     out.append(ob('C17/largecomm/n=2', 'ob_largecomm', {'more': [[4294967295, 0, 2147483648]]}, covers=['decoded', 'accepted'], cap=250))
     return out
